@@ -42,10 +42,12 @@ fn gen_rank_world(src: &mut Source, force_distinct: bool, fit_cap: bool) -> Rank
             w
         }).collect()
     };
-    let nrec = match src.weighted(&[5, 4, 2]) {
+    let nrec = match src.weighted(&[10, 8, 4, 1]) {
         0 => src.range(1, 8),
         1 => src.range(9, 30),
-        _ => src.range(31, 60),
+        2 => src.range(31, 60),
+        // now and then a store beyond 100 candidates (limits above the default then matter)
+        _ => src.range(101, 260),
     };
     let distinct = force_distinct || src.chance(1, 2);
     let ratings: Vec<usize> = if distinct { gen_distinct_ratings(src, nrec) } else { (0..nrec).map(|_| src.below(4)).collect() };
@@ -56,7 +58,7 @@ fn gen_rank_world(src: &mut Source, force_distinct: bool, fit_cap: bool) -> Rank
             (k + 1, t, ratings[k])
         })
         .collect();
-    let mut limit = src.below(nrec + 3);
+    let mut limit = if nrec > 100 { src.range(11, 40) } else { src.below(nrec + 3) };
     if fit_cap {
         // |store| <= 10 * limit
         limit = limit.max((nrec + 9) / 10).max(1);
@@ -217,6 +219,26 @@ pub fn decode_c07(src: &mut Source) -> Box<dyn Case> {
         3 => w.recs.iter_mut().for_each(|r| r.2 = (1usize << 32) - 1 - r.2),
         _ => {}
     }
+    // ids are user-supplied and need not be unique: two records under one id are still two hits
+    if src.chance(1, 6) && w.recs.len() >= 2 {
+        let k = src.range(1, 3);
+        for _ in 0..k {
+            let a = src.below(w.recs.len());
+            let b = src.below(w.recs.len());
+            if a != b && w.recs[a].1 != w.recs[b].1 {
+                w.recs[b].0 = w.recs[a].0;
+            }
+        }
+        // hits are told apart by (id, title): keep titles distinct within an id
+        let mut seen = std::collections::BTreeSet::new();
+        let mut next = w.recs.len() + 1;
+        for r in w.recs.iter_mut() {
+            if !seen.insert((r.0, r.1.clone())) {
+                r.0 = next;
+                next += 1;
+            }
+        }
+    }
     Box::new(C07Case(w))
 }
 
@@ -250,6 +272,11 @@ impl Case for C07Case {
                     if a >= b {
                         continue;
                     }
+                    let dup = |id: usize| w.recs.iter().filter(|r| r.0 == id).count() > 1;
+                    if dup(hits[a].0) || dup(hits[b].0) {
+                        ctx.count("pair_skipped_duplicate_id", 1);
+                        continue;
+                    }
                     let ra = w.recs.iter().find(|r| r.0 == hits[a].0).unwrap().clone();
                     let rb = w.recs.iter().find(|r| r.0 == hits[b].0).unwrap().clone();
                     for pair in [vec![ra.clone(), rb.clone()], vec![rb.clone(), ra.clone()]] {
@@ -277,6 +304,8 @@ impl Case for C07Case {
             ctx.label_if(hits.len() >= 3, ">=3-hits");
             ctx.label_if(!identity, "non-identity-permutation");
             ctx.label_if(w.recs.iter().any(|r| r.2 >= 1usize << 31), "ratings>=2^31");
+            ctx.label_if({ let mut ids: Vec<usize> = w.recs.iter().map(|r| r.0).collect(); ids.sort(); ids.dedup(); ids.len() < w.recs.len() }, "duplicate-ids");
+            ctx.label_if(n > 100, "store>100");
             if hits.len() >= 3 && !identity {
                 ctx.nontrivial();
             }
@@ -341,24 +370,31 @@ pub fn decode_c12(src: &mut Source) -> Box<dyn Case> {
     let distinct = src.chance(1, 2);
     let total = nrec + 6;
     let ratings: Vec<usize> = if distinct { gen_distinct_ratings(src, total) } else { (0..total).map(|_| src.below(3)).collect() };
-    let mut mk = |src: &mut Source, k: usize| -> Rec {
+    let mk = |src: &mut Source, k: usize| -> Rec {
         let nw = src.range(1, 3);
         let words: Vec<String> = (0..nw).map(|_| {
             let w = src.pick(&vocab).clone();
             if src.chance(1, 3) { variant(src, lang, &w) } else { w }
         }).collect();
+        if src.chance(1, 12) {
+            // a title without any letter or digit: still a record, still listed by an empty query
+            return (k + 1, src.pick(&["", "???", "— — —", " ", "-", "!"]).to_string(), ratings[k]);
+        }
         (k + 1, words.join(*src.pick(&[" ", " ", "-", "  "])), ratings[k])
     };
     let recs: Vec<Rec> = (0..nrec).map(|k| mk(src, k)).collect();
     let limit = src.below(nrec + 3);
     let query = src.pick(&["", " ", "-", "' ", "\0", "+ -", "\u{301}", "  ", ".", "()"]).to_string();
-    let (more, limit2) = if src.chance(1, 2) {
-        let k = src.range(1, 6);
-        let more: Vec<Rec> = (0..k).map(|i| mk(src, nrec + i)).collect();
-        let l2 = if src.chance(2, 3) { Some(src.below(nrec + k + 3)) } else { None };
-        (more, l2)
-    } else {
-        (Vec::new(), None)
+    let (more, limit2) = match src.weighted(&[3, 2, 1]) {
+        1 => {
+            let k = src.range(1, 6);
+            let more: Vec<Rec> = (0..k).map(|i| mk(src, nrec + i)).collect();
+            let l2 = if src.chance(2, 3) { Some(src.below(nrec + k + 3)) } else { None };
+            (more, l2)
+        }
+        // only the limit changes between two empty-query searches (no add in between)
+        2 => (Vec::new(), Some(src.below(nrec + 3))),
+        _ => (Vec::new(), None),
     };
     Box::new(C12Case { lang, recs, limit, query, distinct, more, limit2 })
 }
@@ -439,14 +475,16 @@ impl Case for C12Case {
         store.highlight_with(("<<", ">>"));
         let hits = search(&store, &self.query);
         self.judge(ctx, "initial", &self.recs, self.limit, &hits)?;
-        if !self.more.is_empty() {
+        if !self.more.is_empty() || self.limit2.is_some() {
             let mut recs = self.recs.clone();
             for r in &self.more {
                 store.add(lucid_suggest_core::Record::new(r.0, &r.1, r.2, &store.lang));
                 recs.push(r.clone());
             }
-            let hits = search(&store, &self.query);
-            self.judge(ctx, "after-adds", &recs, self.limit, &hits)?;
+            if !self.more.is_empty() {
+                let hits = search(&store, &self.query);
+                self.judge(ctx, "after-adds", &recs, self.limit, &hits)?;
+            }
             if let Some(l2) = self.limit2 {
                 store.limit = l2;
                 let hits = search(&store, &self.query);
@@ -458,6 +496,8 @@ impl Case for C12Case {
             ctx.nontrivial();
         }
         ctx.label_if(self.recs.is_empty(), "empty-store");
+        ctx.label_if(self.more.is_empty() && self.limit2.is_some(), "limit-change-only");
+        ctx.label_if(self.recs.iter().any(|r| !r.1.chars().any(|c| c.is_alphanumeric())), "wordless-title");
         ctx.label_if(self.limit == 0, "limit-0");
         Ok(())
     }
